@@ -34,6 +34,7 @@ from lv.gen.grammar import Cfg
 from lv.gen.grammar import program_strategy
 from lv.gen.printer import to_source
 from lv.harness.envs import make_env
+from lv.harness.envs import run_coro
 
 from liquid2.exceptions import LiquidError
 
@@ -637,7 +638,7 @@ def chain_case(draw: Any) -> dict[str, Any]:
     if r.p(0.08):
         main, templates = g.extends_case()
         return {"kind": "chain", "shopify": shopify, "segments": [["extends", main]], "templates": templates,
-                "data": data, "owners": owners, "ctl": "block"}
+                "data": data, "owners": owners, "ctl": "block", "mode": "async" if r.p(0.35) else "sync"}
     segs = []
     templates: dict[str, str] = {}
     for _ in range(r.pick([1, 1, 1, 2, 3])):
@@ -647,7 +648,7 @@ def chain_case(draw: Any) -> dict[str, Any]:
         templates.update(tpl)
         segs.append([k, src])
     return {"kind": "chain", "shopify": shopify, "segments": segs, "templates": templates, "data": data,
-            "owners": owners, "ctl": "tail"}
+            "owners": owners, "ctl": "tail", "mode": "async" if r.p(0.35) else "sync"}
 
 
 # --------------------------------------------------------------------------- shared grammar generator over tainted data
@@ -711,7 +712,8 @@ def prog_case(draw: Any) -> dict[str, Any]:
     shopify = r.p(0.6)
     prog = draw(program_strategy(PROG_CFG if shopify else PROG_CFG_PLAIN))
     data, owners = prog_data(r)
-    return {"kind": "prog", "shopify": shopify, "prog": prog, "layout": r.i(0, 30), "data": data, "owners": owners}
+    return {"kind": "prog", "shopify": shopify, "prog": prog, "layout": r.i(0, 30), "data": data, "owners": owners,
+            "mode": "async" if r.p(0.35) else "sync"}
 
 
 # --------------------------------------------------------------------------- deterministic part
@@ -945,7 +947,8 @@ class C04(Prop):
         return st.one_of(chain_case(), chain_case(), chain_case(), chain_case(), prog_case())
 
     def enumerate(self, tier: str, disabled: frozenset[str]):
-        yield from enum_cases()
+        for i, case in enumerate(enum_cases()):
+            yield dict(case, mode="async") if i % 4 == 3 else case
 
     def budget_s(self, tier: str) -> float:
         return 240 if tier == "quick" else 3000
@@ -969,12 +972,14 @@ class C04(Prop):
         return main, templates
 
     def _render(self, main: str, templates: dict[str, str], data: dict[str, Any], shopify: bool,
-                log: list[list[Any]] | None = None) -> tuple[str, Any]:
+                log: list[list[Any]] | None = None, mode: str = "sync") -> tuple[str, Any]:
         env = make_env(templates, shopify=shopify, auto_escape=True)
         if log is not None:
             for name in list(env.filters):
                 env.filters[name] = _Logged(name, env.filters[name], log)
         try:
+            if mode == "async":
+                return "ok", run_coro(env.from_string(main).render_async(**data))
             return "ok", env.from_string(main).render(**data)
         except LiquidError as err:
             return "err", err
@@ -989,11 +994,13 @@ class C04(Prop):
         data: dict[str, Any] = case["data"]
         shopify: bool = case["shopify"]
         main, templates = self._sources(case, control=False)
+        mode: str = case.get("mode", "sync")
         res.labels.append("kind:" + case["kind"])
+        res.labels.append("mode:" + mode)
 
         log: list[list[Any]] = []
         try:
-            status, out = self._render(main, templates, data, shopify, log)
+            status, out = self._render(main, templates, data, shopify, log, mode)
         except Exception as err:  # noqa: BLE001 - a crash is C02's business; nothing was output
             res.labels.append("crash:" + exc_bucket(err))
             self._label_filters(log, owners, res)
@@ -1011,7 +1018,7 @@ class C04(Prop):
             nonlocal evaluations
             evaluations += 1
             try:
-                st_, o = self._render(main, templates, d, shopify)
+                st_, o = self._render(main, templates, d, shopify, None, mode)
             except Exception:  # noqa: BLE001
                 return None
             return clean(o) if st_ == "ok" else None
@@ -1062,7 +1069,7 @@ class C04(Prop):
         cmain, ctemplates = self._sources(case, control=True)
         evaluations += 1
         try:
-            cst, cout = self._render(cmain, ctemplates, data, shopify)
+            cst, cout = self._render(cmain, ctemplates, data, shopify, None, mode)
         except Exception:  # noqa: BLE001
             cst, cout = "err", None
         raw_ctl = data["ctl"]
